@@ -103,7 +103,8 @@ fn span3(r: std::thread::Result<Result<Option<(usize, usize)>, fancy_regex::Erro
     }
 }
 
-pub struct Fancy(pub Regex);
+/// .1: also go through the convenience wrappers replace / replace_all / replacen (they unwrap, so only without a backtrack limit)
+pub struct Fancy(pub Regex, pub bool);
 const NAME1: &str = "x1";
 
 impl Eng for Fancy {
@@ -123,7 +124,18 @@ impl Eng for Fancy {
     }
     fn replace(&self, t: &str, lim: usize, rid: usize) -> Rep {
         let re = &self.0;
-        let r = catch_unwind(AssertUnwindSafe(|| match rid {
+        // the documented wrappers are the same operation: replace = limit 1, replace_all = limit 0, replacen(n) = limit n;
+        // half of the replacers go through them (limit 3 always through try_replacen)
+        let r = catch_unwind(AssertUnwindSafe(|| match (rid, self.1 && lim < 3) {
+            (1, true) => Ok(match lim { 0 => re.replace_all(t, "x"), 1 => re.replace(t, "x"), _ => re.replacen(t, lim, "x") }),
+            (3, true) => Ok(match lim { 0 => re.replace_all(t, "$0"), 1 => re.replace(t, "$0"), _ => re.replacen(t, lim, "$0") }),
+            (4, true) => Ok(match lim { 0 => re.replace_all(t, "[$1]"), 1 => re.replace(t, "[$1]"), _ => re.replacen(t, lim, "[$1]") }),
+            (7, true) => Ok(match lim {
+                0 => re.replace_all(t, |_: &Captures| "x"),
+                1 => re.replace(t, |_: &Captures| "x"),
+                _ => re.replacen(t, lim, |_: &Captures| "x"),
+            }),
+            _ => match rid {
             0 => re.try_replacen(t, lim, |c: &Captures| c.get(0).map(|m| m.as_str().to_string()).unwrap_or_default()),
             1 => re.try_replacen(t, lim, "x"),
             2 => re.try_replacen(t, lim, NoExpand("$1")),
@@ -133,6 +145,7 @@ impl Eng for Fancy {
             6 => re.try_replacen(t, lim, "$$"),
             7 => re.try_replacen(t, lim, |_: &Captures| "x"),
             _ => unreachable!(),
+            },
         }));
         match r {
             Ok(Ok(Cow::Borrowed(b))) => {
@@ -440,7 +453,7 @@ pub fn iter_record(a: &Value, texts: &[String], parts: &str, bl: i64, with_regex
         Ok(Ok(re)) => {
             m.insert("st".into(), json!("ok"));
             m.insert("ek".into(), json!(""));
-            parts_of(&Fancy(re), texts, parts, bl, "", m);
+            parts_of(&Fancy(re, bl < 0), texts, parts, bl, "", m);
         }
         Ok(Err(e)) => {
             m.insert("st".into(), json!("cerr"));
